@@ -32,6 +32,15 @@ def generate(rng, seed, index, tier):
     spec, x0, y0 = gen.gen_problem(rng, fam, nmax=5, mmax=3)
     x0 = np.clip(np.round(rng.normal(size=spec["n"]), 3), spec["xl"], spec["xu"])
     y0 = np.round(rng.normal(size=spec["m"]), 3)
+    # the sparse results come in every legal COO shape: repeated positions (an entry is the sum of its
+    # contributions), stored zeros, changing entry order
+    if rng.random() < 0.3:
+        spec["dup"] = True
+        spec["fmt"] = "coo"
+    if rng.random() < 0.2:
+        spec["xzeros"] = True
+    if rng.random() < 0.2:
+        spec["shuffle"] = True
     kw = {"deriv_check": str(rng.choice(["CheckFirst", "CheckSecond", "CheckAll"], p=[0.3, 0.3, 0.4])), "iteration_limit": int(rng.integers(2, 8))}
     if rng.random() < 0.3:
         kw["scaling_type"] = "Custom"
